@@ -27,6 +27,7 @@ type Options struct {
 	AliasInParams            bool // user types aliasing a primitive used in path/query/header/cookie
 	UintEnums                bool
 	NonStringPrimitiveHeader bool // Payload(Int) mapped to a header
+	DefaultInRespHeader      bool // result attribute with a default mapped to a response header/cookie
 }
 
 // DefaultOptions is the HTTP envelope used by most checks.
@@ -704,6 +705,9 @@ func (g *gen) httpMap(s *Service, m *Method, pfields []*Field) *HTTPMap {
 			kind := isParamType(&f.A.T, g.d)
 			if kind == "alias" {
 				kind = ""
+			}
+			if f.A.HasDef && !g.o.DefaultInRespHeader {
+				kind = "" // finding C03/default-in-response-header: keep defaulted attributes in the body
 			}
 			switch {
 			case (kind == "prim" || kind == "array") && r.Chance(1, 5):
